@@ -894,6 +894,15 @@ def r12_declared_choices_enforced(ctx):
     ctx.floor("options with declared choices", n, 2)
 
 
+
+def r13_bypass_writers(ctx):
+    """a wholesale replacement of the fit properties (restore/update of the
+    underlying dict) can put back a remembered pipeline that the columns no
+    longer belong to: shared with C03-R3"""
+    from .c03 import r3_bypass_writers
+    r3_bypass_writers(ctx)
+
+
 RULES = [
     ("C06-R1", "preproc.apply restarts from raw data on every path",
      r1_restart_from_raw),
@@ -920,4 +929,6 @@ RULES = [
     ("C06-R12", "declared option choices are enforced (an undefined value "
      "is rejected, not processed as a valid one)",
      r12_declared_choices_enforced),
+    ("C06-R13", 'the remembered pipeline is only written through FitProperties.__setitem__ or by the enumerated writers (no wholesale restore behind a new preprocessing)',
+     r13_bypass_writers),
 ]
